@@ -961,8 +961,10 @@ class SolverWrapper:
             raise ValueError("`ranges` and `constants` must have the same length.")
 
         pieces = len(ranges)
-        Ls = [r[0] for r in ranges]
-        Us = [r[1] for r in ranges]
+        # (as Python floats: differences of fixed-width numpy integers wrap around, np.int32(2**31 - 1) - 0 doubled is -2)
+        Ls = [float(r[0]) for r in ranges]
+        Us = [float(r[1]) for r in ranges]
+        constants = [float(c) for c in constants]
         M = (max(Us) - min(Ls)) * 2
         # Separate big-M for the y-rows: it must dominate the spread of the constants,
         # which is unrelated to the spread of the x-ranges.
